@@ -667,6 +667,7 @@ type Lemma struct {
 	Expr  *SExpr
 	Text  string
 	Axiom bool // assumed, not proved
+	Local bool // assumed only in units whose own contract mentions a declared-only spec function of the axiom
 	Pkg   string
 	File  string
 	Line  int
@@ -961,14 +962,14 @@ func (cs *ContractSet) ParseContractText(pkgPath, file, text string) error {
 			cs.Ghosts[pf.Name] = &GhostDecl{Name: pf.Name, Params: pf.Params, Ret: pf.Ret, Pkg: pkgPath}
 			cur = nil
 			curLoop = nil
-		case "lemma", "axiom":
+		case "lemma", "axiom", "local-axiom":
 			name, r2 := splitWord(rest)
 			e, err := ParseSpecExpr(r2)
 			if err != nil {
 				return fmt.Errorf("%s:%d: %v", file, ln+1, err)
 			}
-			cs.Lemmas = append(cs.Lemmas, &Lemma{Name: name, Expr: e, Text: r2, Axiom: base == "axiom", Pkg: pkgPath, File: file, Line: ln + 1})
-			if base == "axiom" {
+			cs.Lemmas = append(cs.Lemmas, &Lemma{Name: name, Expr: e, Text: r2, Axiom: base == "axiom" || base == "local-axiom", Local: base == "local-axiom", Pkg: pkgPath, File: file, Line: ln + 1})
+			if base == "axiom" || base == "local-axiom" {
 				cs.Assumes++
 			}
 		case "opt":
